@@ -646,7 +646,9 @@ def run_unit(ctx, unit):
         narrow = bool(unit[5])
         total, first = count_steps(shape, unit[2], narrow)
         j = 0
-        stride = 1 if ctx.tier == "thorough" or "first_use" in shape else 5  # quick: a seeded fifth of the pairs (first_use: all, the space is small)
+        # quick: a seeded fifth of the pairs over the copy-protection lines (first_use: all, the space is small);
+        # thorough: all pairs over the copy-protection lines, a seeded third of the pairs over both files
+        stride = 1 if "first_use" in shape or (ctx.tier == "thorough" and narrow) else (3 if ctx.tier == "thorough" else 5)
         for s1 in range(1, total + 1):
             for s2 in range(s1 + 1, total + 1):
                 j += 1
@@ -669,7 +671,7 @@ def coverage_extra(tier, counters):
             "exhaustive_scope": "every single-preemption schedule (line granularity, utils/mutation.py + methods/core.py) for the 6 copying thread shapes; every single- and two-preemption schedule at the lines of "
             "build_attr_spec for two threads making the first use of two different lazily bootstrapped classes"
             + ("; every" if tier == "thorough" else "; a seeded fifth of the") + " two-preemption schedules at the lines of utils/mutation.py for the 2-thread shapes"
-            + (" and at the lines of both files" if tier == "thorough" else "")}
+            + (" and a seeded third of them at the lines of both files" if tier == "thorough" else "")}
 
 
 def replay(ctx, case):
